@@ -5,6 +5,7 @@ CONSTANTS
   Thr = 2
   InitBal = 20
   PersistUnderLock = FALSE
+  RefreshReadsUnderLock = FALSE
   Amounts <- GAmounts
   MaxOps = 0
 INVARIANT EmitAll
